@@ -179,6 +179,10 @@ def apply_deviation(dev: dict, hello: bytes, answer: bytes | None, bodies: list[
             data[i] = bytes(f)
             # re-framed stream: judged by the prefix rule; if a complete frame then fails its class is one of these
             return frames + data, 2 + i, i, {"InvalidEncryptionKeyAPIError", "ProtocolAPIError", "*maybe-none*"}, "data"
+    if k == "trailing":
+        # a frame that is no Noise frame at all (wrong marker) / is not authentic, right behind the genuine ones
+        raw = bytes.fromhex(dev["hex"])
+        return frames + data + [raw], 2 + len(data), len(data), {"ProtocolAPIError"} if raw[0] != 1 else KEYERR, "data"
     if k == "hs_error":
         frames[1] = wire.enc_noise_outer(b"\x01" + dev["text"].encode())
         return frames + data, 1, 0, KEYERR if dev["text"] == "Handshake MAC failure" else {"HandshakeAPIError"}, "handshake"
@@ -589,6 +593,10 @@ def enumerated(tier):
     for d in HS_DEVS + [{"kind": "hs_status", "val": v} for v in (2, 0x41, 0x80, 0xFF)] + [{"kind": "hs_flip", "pos": p, "mask": 1} for p in (0, 5, 31, 32, 47)] + [{"kind": "hs_trunc", "len": n} for n in (0, 1, 20, 48)]:
         for cuts in (None, [3], [4, 9]):
             yield {"mode": "api", "what": "dev", "dev": d, "cuts": cuts}
+    # the deviating frame sits in the chunk that completes the handshake, directly behind the device's handshake reply
+    for hx in ("000000", "020000", "7f0001aa", "01001000112233445566778899aabbccddeeff"):
+        for cuts in (None, [5]):
+            yield {"mode": "api", "what": "dev", "dev": {"kind": "trailing", "hex": hx}, "cuts": cuts}
     for nm, ex in (("dev", "other"), ("", "dev"), ("devx", "dev"), ("dev-2", "dev"), ("plug-2", "plug"), ("dev", "dev-2")):
         yield {"mode": "api", "what": "dev", "dev": {"kind": "name"}, "name": nm, "expected": ex}
     for what in ("wrong_key", "plain_device_noise_client", "noise_device_plain_client"):
